@@ -122,6 +122,14 @@ class Vocabulary:
     ) -> np.ndarray[int, np.dtype[np.int32]]:
         "Look up the numbers for an array of terms or IDs."
         nums = np.require(self._index.get_indexer_for(terms), dtype=np.int32)
+        if self._index.dtype.kind == "u":
+            # Pandas converts signed keys to an unsigned index type without a
+            # range check, so out-of-range terms can hit a known one: verify.
+            keys = np.asarray(terms)
+            hit = nums >= 0
+            if keys.dtype.kind in "iu" and np.any(hit):
+                wrong = np.asarray(self._index.values[nums[hit]]) != keys[hit]
+                nums[np.flatnonzero(hit)[wrong]] = -1
         if missing == "error" and np.any(nums < 0):
             raise KeyError()
         return nums
